@@ -8,7 +8,6 @@
    (same branch structure; defects included).  What it is parametrised by, per edge (DESIGN C13):
      - the extreme latitudes e_max / e_min of the great-circle edge (extreme_gca_latitude; tied to the
        C14 model: the harness checks them against c14_extreme_spec on every case),
-     - the outcomes of the four isclose(node_lat, extreme) tests,
      - whether the pole point is the edge's first node or lies on the edge (pole branches),
    and per face by has_north_pole / has_south_pole (_pole_point_inside_polygon).
    Definitions only. *)
@@ -61,28 +60,17 @@ Record c13_edge := {
   c13_lat1 : Z; c13_lon1 : Z;          (* first node of the edge *)
   c13_lat2 : Z;                        (* latitude of the second node *)
   c13_emax : Z; c13_emin : Z;          (* extreme_gca_latitude(edge, 'max' / 'min') *)
-  c13_c1max : bool; c13_c2max : bool;  (* isclose(node1_lat, lat_max), isclose(node2_lat, lat_max) *)
-  c13_c1min : bool; c13_c2min : bool;  (* isclose(node1_lat, lat_min), isclose(node2_lat, lat_min) *)
   c13_pole_here : bool                 (* allclose(n1, pole) or point_within_gca(pole, edge) *)
 }.
 
-(* normal face: one insertion per edge *)
+(* normal face (since fix bb1965a6): for lat_ins in (node1_lat, lat_max, lat_min): insert [lat_ins, node1_lon] *)
 Definition c13_step_normal (P H : Z) (b : c13_box) (e : c13_edge) : c13_box :=
-  if negb (c13_c1max e) && negb (c13_c2max e) then c13_insert P H b (c13_emax e) (c13_lon1 e)
-  else if negb (c13_c1min e) && negb (c13_c2min e) then c13_insert P H b (c13_emin e) (c13_lon1 e)
-  else c13_insert P H b (c13_lat1 e) (c13_lon1 e).
-
-Definition c13_bounds_normal (P H : Z) (es : list c13_edge) : c13_box :=
-  fold_left (c13_step_normal P H) es c13_empty.
-
-(* the repair a maintainer would make: always insert the node, then both extremes *)
-Definition c13_step_repaired (P H : Z) (b : c13_box) (e : c13_edge) : c13_box :=
   let b1 := c13_insert P H b (c13_lat1 e) (c13_lon1 e) in
   let b2 := c13_insert P H b1 (c13_emax e) (c13_lon1 e) in
   c13_insert P H b2 (c13_emin e) (c13_lon1 e).
 
-Definition c13_bounds_repaired (P H : Z) (es : list c13_edge) : c13_box :=
-  fold_left (c13_step_repaired P H) es c13_empty.
+Definition c13_bounds_normal (P H : Z) (es : list c13_edge) : c13_box :=
+  fold_left (c13_step_normal P H) es c13_empty.
 
 Definition c13_set_lat_hi (b : c13_box) (v : Z) : c13_box :=
   {| c13_lat_lo := c13_lat_lo b; c13_lat_hi := v; c13_lon_lo := c13_lon_lo b; c13_lon_hi := c13_lon_hi b |}.
@@ -120,11 +108,6 @@ Definition c13_lon_in (b : c13_box) (x : Z) : bool :=
   else (c13_lon_lo b <=? x) || (x <=? c13_lon_hi b).
 
 Definition c13_lat_in (b : c13_box) (x : Z) : bool := (c13_lat_lo b <=? x) && (x <=? c13_lat_hi b).
-
-(* the isclose flags say the truth (exact equality) *)
-Definition c13_truthful (e : c13_edge) : Prop :=
-  c13_c1max e = (c13_lat1 e =? c13_emax e) /\ c13_c2max e = (c13_lat2 e =? c13_emax e) /\
-  c13_c1min e = (c13_lat1 e =? c13_emin e) /\ c13_c2min e = (c13_lat2 e =? c13_emin e).
 
 (* a geometrically sensible edge: extremes bracket both end latitudes, everything strictly between the poles'
    latitudes or equal to them, longitude not the fill value *)
